@@ -71,6 +71,7 @@ type HarnessRun struct {
 	Assumptions  map[string]bool
 	wall         time.Duration
 	merged       int
+	activeNs     int64
 	stop         int32
 }
 
@@ -724,14 +725,6 @@ func (w *World) Explore(h *harnessFn, cfg *Config) *HarnessRun {
 		mu.Unlock()
 		cond.Signal()
 	}
-	if cfg.BudgetSec > 0 {
-		timer := time.AfterFunc(time.Duration(cfg.BudgetSec)*time.Second, func() {
-			if atomic.CompareAndSwapInt32(&run.stop, 0, 1) {
-				run.note(&run.Inconclusive, fmt.Sprintf("harness time budget of %ds exhausted", cfg.BudgetSec))
-			}
-		})
-		defer timer.Stop()
-	}
 	var wg sync.WaitGroup
 	for i := 0; i < cfg.Workers; i++ {
 		wg.Add(1)
@@ -767,7 +760,15 @@ func (w *World) Explore(h *harnessFn, cfg *Config) *HarnessRun {
 					}
 				}
 				if proc != nil {
+					tp := time.Now()
 					w.runPath(h, run, cfg, proc, it, push)
+					// budget in core-seconds actually spent on this harness (waiting for a CPU slot is free)
+					used := atomic.AddInt64(&run.activeNs, int64(time.Since(tp)))
+					if cfg.BudgetSec > 0 && used > int64(cfg.BudgetSec)*int64(cfg.Workers)*int64(time.Second) {
+						if atomic.CompareAndSwapInt32(&run.stop, 0, 1) {
+							run.note(&run.Inconclusive, fmt.Sprintf("harness budget of %d core-seconds exhausted", cfg.BudgetSec*cfg.Workers))
+						}
+					}
 				}
 				<-cpuSem
 				mu.Lock()
